@@ -77,13 +77,13 @@ func sizeFamily(thorough bool) []string {
 	return out
 }
 
-var Check = &sqrun.Check{ID: "C01", QuickBudget: 90, ThoroughBudget: 900,
+var Check = &sqrun.Check{ID: "C01", QuickBudget: 90, ThoroughBudget: 1500,
 	Run: func(c *sqrun.Ctx) *sqrun.Outcome {
 		k := &collector{c: c, connAll: c.Thorough}
 		debug.SetGCPercent(1000)
 		L, allBelow, pairBelow, nl := 4, 9, 14, 3
 		if c.Thorough {
-			L, allBelow, pairBelow, nl = 5, 12, 24, 4
+			L, allBelow, pairBelow, nl = 5, 10, 18, 4
 		}
 		streams := 0
 		t0 := time.Now()
